@@ -523,7 +523,8 @@ P('C05', 'other',
    lambda c: _proj(c, eng(c).families, 'R05.2'),
    lambda c: _exits(c, eng(c).families, 'R05.9'),
    lambda c: r18_1_guarded_divisions(c, 'R05.3', 'R05.4'),
-   lambda c: only_rules(lambda cc: r14_2_index_kinds(cc, 'R14.2', 'R05.5', 'R14.3'), {'R05.5'})(c),
+   lambda c: [o for o in only_rules(lambda cc: r14_2_index_kinds(cc, 'R14.2', 'R05.5', 'R14.3'), {'R05.5'})(c)
+              if 'selection-reordered' not in (o.key or '')],     # the layout of a matrix is not a matter of C05
    lambda c: RM.r06_aggregation(c, 'R05.5', 'R05.5'),
    lambda c: RC.avrg_spec(c, 'DiscreteFunc', 'R05.6') + RC.avrg_spec(c, 'PieceWiseConstFunc', 'R05.6') + RC.avrg_spec(c, 'PieceWiseLinFunc', 'R05.6'),
    lambda c: [Ob('R05.6', o.title, o.status, o.where, o.detail, o.key, o.construct, o.extra)
@@ -772,6 +773,7 @@ P('C17', 'other',
 P('C18', 'other',
   [lambda c: r18_1_guarded_divisions(c, 'R18.1', 'R05.4'),
    lambda c: _exits(c, eng(c).families, 'R18.9'),
+   lambda c: __import__('pyspike_sa.rules_exits', fromlist=['x']).numpy_arithmetic_obs(c, [f for f in eng(c).families if not f.wrapper.cls], 'R18.10'),
    _guarded_subscripts_all,
    _extents_all,
    lambda c: r_kernel_call_typestates(c, ('R15.1', 'R16.2', 'R18.4')),
@@ -1048,7 +1050,83 @@ _ADDENDA = {
     'C14': " R14.2 also: the selection is used in the caller's order (only order-preserving copies of `indices`).",
     'C16': _EXITS.format(rid='R16.9'),
     'C17': _EXITS.format(rid='R17.9'),
-    'C18': (" R18.5 also covers R03.6 (trimming of the discrete profiles)." + _EXITS.format(rid='R18.9')),
+    'C18': (" R18.5 also covers R03.6 (trimming of the discrete profiles). R18.10 the Python kernels compute on the numpy values of their "
+            "array arguments (no conversion to Python numbers: 0.0/0.0 is nan there and trimmed afterwards, with Python floats it raises)."
+            + _EXITS.format(rid='R18.9')),
 }
 for _pid, _txt in _ADDENDA.items():
     PROPS[_pid]['explanation'] = PROPS[_pid]['explanation'] + _txt
+
+
+# ---------------------------------------------------------------------------------------------
+# exact decisions (rules_exact.py): scopes per property - the functions the property speaks about; everything reachable
+# from them by name is searched as well
+# ---------------------------------------------------------------------------------------------
+def _scope(mods=(), names=(), name_parts=()):
+    mods, names, name_parts = set(mods), set(names), tuple(name_parts)
+
+    def pred(f):
+        last = f.name.split('.')[-1]
+        return f.module in mods or last in names or f.name in names or any(p in last for p in name_parts)
+    return pred
+
+
+_BACKENDS = ('pyspike.cython.python_backend', 'pyspike.cython.directionality_python_backend', 'pyspike.cython.cython_profiles',
+             'pyspike.cython.cython_distances', 'pyspike.cython.cython_add', 'pyspike.cython.cython_directionality',
+             'pyspike.cython.cython_get_tau', 'pyspike.cython.cython_simulated_annealing')
+_EXACT = {
+    'C01': ('R01.8', _scope(mods=('pyspike.isi_distance',), name_parts=('isi_distance', 'isi_profile')), 'the ISI profile'),
+    'C02': ('R02.10', _scope(mods=('pyspike.spike_distance',), names=('get_min_dist', 'get_min_dist_cython', 'dist_at_t'),
+                             name_parts=('spike_distance', 'spike_profile')), 'the SPIKE profile'),
+    'C03': ('R03.8', _scope(names=('get_tau', 'Interpolate', 'spike_sync_profile_bi', 'spike_sync_profile_multi', 'spike_sync_profile',
+                                   'filter_by_spike_sync'), name_parts=('coincidence',)), 'SPIKE-Sync coincidence detection'),
+    'C04': ('R04.8', _scope(mods=('pyspike.spike_directionality', 'pyspike.cython.directionality_python_backend',
+                                  'pyspike.cython.cython_directionality'), names=('get_tau', 'Interpolate')),
+            'spike-train order and directionality'),
+    'C05': ('R05.8', _scope(mods=('pyspike.isi_distance', 'pyspike.spike_distance', 'pyspike.spike_sync', 'pyspike.spike_directionality',
+                                  'pyspike.generic'), names=('integral', 'avrg')), 'the scalar measures and the profile averages'),
+    'C06': ('R06.10', _scope(mods=('pyspike.generic',), names=('add', 'average_profile'), name_parts=('_multi', '_matrix', 'add_')),
+            'the multivariate aggregates'),
+    'C07': ('R07.8', _scope(mods=_BACKENDS + ('pyspike.isi_distance', 'pyspike.spike_distance', 'pyspike.spike_sync',
+                                               'pyspike.spike_directionality')), 'ranges, symmetry and identity of the measures'),
+    'C08': ('R08.6', _scope(mods=_BACKENDS + ('pyspike.isi_distance', 'pyspike.spike_distance', 'pyspike.spike_sync',
+                                               'pyspike.spike_directionality', 'pyspike.generic', 'pyspike.isi_lengths',
+                                               'pyspike.PieceWiseConstFunc', 'pyspike.PieceWiseLinFunc', 'pyspike.DiscreteFunc')),
+            'shift, scale and reversal covariance (a fixed tolerance is a hidden time scale)'),
+    'C09': ('R09.11', _scope(names=('PieceWiseConstFunc.add', 'PieceWiseLinFunc.add', 'PieceWiseConstFunc.mul_scalar',
+                                    'PieceWiseLinFunc.mul_scalar', 'PieceWiseConstFunc.copy', 'PieceWiseLinFunc.copy',
+                                    'PieceWiseConstFunc.__init__', 'PieceWiseLinFunc.__init__'), name_parts=('add_piece_wise',)),
+            'the sum of piecewise functions'),
+    'C10': ('R10.6', _scope(names=tuple(f"{c_}.{m_}" for c_ in ('PieceWiseConstFunc', 'PieceWiseLinFunc')
+                                        for m_ in ('__call__', 'integral', 'avrg', 'get_plottable_data', '__init__'))),
+            'evaluation, integral and average'),
+    'C11': ('R11.8', _scope(mods=('pyspike.DiscreteFunc',), name_parts=('add_discrete',)), 'discrete profiles'),
+    'C12': ('R12.7', _scope(mods=_BACKENDS), 'both backends'),
+    'C13': ('R13.5', _scope(mods=('pyspike.spikes', 'pyspike.SpikeTrain')), 'reconciliation of the inputs'),
+    'C14': ('R14.7', _scope(mods=('pyspike.isi_distance', 'pyspike.spike_distance', 'pyspike.spike_sync', 'pyspike.spike_directionality',
+                                  'pyspike.generic')), 'the call forms and index selections'),
+    'C15': ('R15.7', _scope(mods=('pyspike.isi_lengths', 'pyspike.generic'), names=('get_tau', 'Interpolate', 'dist_at_t')),
+            'MRTS and the automatic threshold'),
+    'C16': ('R16.5', _scope(mods=('pyspike.spike_sync', 'pyspike.spike_directionality'), names=('get_tau', 'Interpolate'),
+                            name_parts=('coincidence',)), 'the max_tau bound'),
+    'C17': ('R17.5', _scope(names=('filter_by_spike_sync',), name_parts=('coincidence_single',)), 'the SPIKE-Sync filter'),
+    'C18': ('R18.8', _scope(mods=_BACKENDS + ('pyspike.isi_distance', 'pyspike.spike_distance', 'pyspike.spike_sync',
+                                               'pyspike.spike_directionality', 'pyspike.generic', 'pyspike.isi_lengths',
+                                               'pyspike.PieceWiseConstFunc', 'pyspike.PieceWiseLinFunc', 'pyspike.DiscreteFunc',
+                                               'pyspike.spikes', 'pyspike.SpikeTrain')), 'well-formed results'),
+    'C20': ('R20.3', _scope(mods=('pyspike.psth',), names=('merge_spike_trains',)), 'merging and histogramming'),
+}
+
+
+def _mk_exact(rid, pred, what):
+    def run(c):
+        from .rules_exact import r_exact_decisions
+        return r_exact_decisions(c, rid, pred, what)
+    return run
+
+
+for _pid, (_rid, _pred, _what) in _EXACT.items():
+    PROPS[_pid]['rules'] = list(PROPS[_pid]['rules']) + [_mk_exact(_rid, _pred, _what)]
+    PROPS[_pid]['explanation'] += (f" {_rid} exact decisions: in the code that {_what} depends on (scope functions and everything reachable from "
+                                   "them by name) no tolerant comparison - np.isclose, np.allclose, math.isclose, |a-b| against a small constant - "
+                                   "decides anything; only almost_equal compares up to a tolerance.")
